@@ -490,8 +490,9 @@ class BasicReadAssignment:
         if read_assignment.isoform_matches:
             gene_set = set()
             isoform_set = set()
+            # penalties are non-negative: the lowest one among the matched isoforms
+            self.penalty_score = min(m.penalty_score for m in read_assignment.isoform_matches)
             for m in read_assignment.isoform_matches:
-                self.penalty_score = min(self.penalty_score, read_assignment.isoform_matches[0].penalty_score)
                 if m.assigned_gene:
                     gene_set.add(m.assigned_gene)
                 if m.assigned_transcript:
@@ -587,8 +588,9 @@ class BasicReadAssignment:
         isoform_matches = read_list(infile, IsoformMatch.deserialize)
         gene_set = set()
         isoform_set = set()
+        if isoform_matches:
+            read_assignment.penalty_score = min(m.penalty_score for m in isoform_matches)
         for m in isoform_matches:
-            read_assignment.penalty_score = min(read_assignment.penalty_score, isoform_matches[0].penalty_score)
             if m.assigned_gene:
                 gene_set.add(m.assigned_gene)
             if m.assigned_transcript:
